@@ -16,7 +16,7 @@ def main(tier):
     jobs = []
     for si, s in enumerate(chosen):
         for st in ("raw", "enc", "comp", "comp+enc"):
-            jobs.append(dict(par=dict(stack=st, seed=seed() + 41 + si, level=5, entropy="low" if si % 2 else "high"),
+            jobs.append(dict(par=dict(stack=st, seed=seed() + 41 + si, level=5, entropy=["high", "low", "struct"][si % 3]),
                              sid=si * 10 + ("raw", "enc", "comp", "comp+enc").index(st), **s))
     # production constants: windows of +-12 (quick) / +-20 (thorough) bytes around every structural boundary that the
     # real layout of the archive has (header end, 128 KiB+16 chunk edges, tags, 4 MiB block edges, typed blocks, footers)
